@@ -414,7 +414,16 @@ def extract_unit(u: Unit, rewrite_log: list) -> List[Piece]:
             # the formatting (one line, several lines, braced or not)
             pat = u.anchor[len("@closure:"):]
             k = find_unique(m, pat, u.name, lo, hi)
-            cp = match_brace(m, k + pat.find("("))
+            # the call whose argument the closure is: the innermost parenthesis still open at the closure's first `|`
+            stack = []
+            for ci, ch in enumerate(pat[:pat.index("|")]):
+                if ch == "(":
+                    stack.append(ci)
+                elif ch == ")" and stack:
+                    stack.pop()
+            if not stack:
+                raise LostAnchor("%s: @closure anchor has no open call parenthesis before `|`: %r" % (u.name, pat))
+            cp = match_brace(m, k + stack[-1])
             ca, ce = k + len(pat), cp
             while ce > ca and src[ce - 1] in " \t\n,":
                 ce -= 1
